@@ -383,6 +383,9 @@ fn run_inner(scn: &Scenario, d: &Driving, out: &mut RunOut) {
             {
                 let dbg = e.debug_interface().unwrap();
                 dbg.break_all = stepping && d.step == StepKind::BreakAll;
+                // no frame has more than 70908/4 steps: a call that needs more than this never returns on its own
+                dbg.budget = (remaining as u64 + 2) * 20_000;
+                dbg.call_steps = 0;
                 if bp_on {
                     if dbg.bps.is_empty() {
                         dbg.bps = d.bps.iter().copied().collect();
@@ -422,7 +425,7 @@ fn run_inner(scn: &Scenario, d: &Driving, out: &mut RunOut) {
                 info = match res {
                     Ok(i) => i,
                     Err(err) => {
-                        out.error = Some(format!("emulate_frames: {:?} after {} frames", err, done));
+                        out.error = Some(format!("emulate_frames: {:?}", err));
                         return;
                     }
                 };
@@ -458,7 +461,7 @@ fn run_inner(scn: &Scenario, d: &Driving, out: &mut RunOut) {
                 info = match res {
                     Ok(i) => i,
                     Err(err) => {
-                        out.error = Some(format!("emulate_frames: {:?} after {} frames", err, done));
+                        out.error = Some(format!("emulate_frames: {:?}", err));
                         return;
                     }
                 };
@@ -485,6 +488,13 @@ fn run_inner(scn: &Scenario, d: &Driving, out: &mut RunOut) {
                         out.bp_at_boundary += 1;
                     }
                 }
+            }
+            if e.debug_interface().unwrap().exhausted {
+                out.api.push(format!(
+                    "a call ({}) asked for {} frame(s) executed {} steps without returning (watchdog stop) at frame {}",
+                    if use_max { "Max".to_string() } else { "FrameCount".to_string() }, remaining, e.debug_interface().unwrap().call_steps, done));
+                out.error = Some("hang".into());
+                return;
             }
             done += frames_in_call;
             out.calls += 1;
@@ -534,4 +544,35 @@ fn run_inner(scn: &Scenario, d: &Driving, out: &mut RunOut) {
         Ok(()) => fnv1(&v),
         Err(_) => 1,
     };
+}
+
+
+/// Loads `file` as SNA (kind 0) or SCR (kind 1) through `deliv` into a fresh emulator; returns the outcome class
+/// and a hash of what the machine looks like afterwards (partial loads included).
+pub fn load_only(m128: bool, kind: u8, file: &[u8], deliv: &Deliv) -> Result<(String, u64), String> {
+    let mut c = Cfg::new(m128);
+    c.rom = true;
+    let r = catch_unwind(AssertUnwindSafe(|| -> Result<(String, u64), String> {
+        let mut e: Emu = Emulator::new(settings(&c), DCtx).map_err(|_| "Emulator::new failed".to_string())?;
+        e.set_debug_interface(DDbg::default());
+        let a = deliv.make(file)?;
+        let out = match kind {
+            0 => e.load_snapshot(Snapshot::Sna(a)),
+            _ => e.load_screen(rustzx_core::host::Screen::Scr(a)),
+        };
+        let outcome = match out {
+            Ok(()) => "ok".to_string(),
+            Err(err) => format!("err:{:?}", err),
+        };
+        let o = observe(&mut e, m128, 0, (0, 0));
+        let mut h = FNV0;
+        for v in [o.regs, o.ram, o.banks, o.screen, o.misc] {
+            fnv(&mut h, &v.to_le_bytes());
+        }
+        Ok((outcome, h))
+    }));
+    match r {
+        Ok(x) => x,
+        Err(_) => Ok(("panic".into(), 0)),
+    }
 }
